@@ -204,8 +204,9 @@ impl DailyLogsUpdate {
                     }
                     previous_hash = daily_hash;
                 } else {
-                    previous_hash = None;
-                    previous_history = None;
+                    // the last computed day before the first day to recompute: the chain continues from its stored hashes
+                    previous_hash = daily_hash;
+                    previous_history = history_hash;
                 }
                 previous_room = room;
                 previous_entity = entity;
